@@ -12,6 +12,7 @@
 #include <limits>
 #include <map>
 #include <new>
+#include <fcntl.h>
 #include <fstream>
 #include <sstream>
 #include <string>
@@ -698,6 +699,8 @@ template <typename T> struct CxOps<T, true> {
 template <typename T, bool Ok> struct FdOps {
   static std::string enc(const T&) { return "unsupported"; }
   static std::string dec(const std::vector<std::uint8_t>&, std::size_t, bool) { return "unsupported"; }
+  static std::string encm(const T&) { return "unsupported"; }
+  static std::string decm(const std::vector<std::uint8_t>&) { return "unsupported"; }
 };
 template <typename T> struct FdOps<T, true> {
   static std::string enc(const T& v) {
@@ -717,6 +720,34 @@ template <typename T> struct FdOps<T, true> {
     if (code) return "st=" + std::to_string(code);
     std::string dump; Dump(dump, h->v);
     return "st=0 val=" + dump + " consumed=" + std::to_string(static_cast<long long>(pos));
+  }
+  // the same through objects that were move-constructed and move-assigned, and released at the end: the descriptor
+  // travels with the object, a moved-from object closes nothing, Release() hands the descriptor back still open
+  static std::string encm(const T& v) {
+    int fd = memfd_create("verifw", 0); int dupfd = dup(fd);
+    std::string r; bool open_after = false; int rel = -2;
+    { nop::FdWriter w1{fd}; nop::FdWriter w2{std::move(w1)}; nop::FdWriter w3; w3 = std::move(w2);
+      nop::Serializer<nop::FdWriter*> s{&w3}; r = WriteWith(s, v);
+      rel = w3.Release(); }
+    open_after = fcntl(fd, F_GETFD) != -1;
+    if (open_after) ::close(fd);
+    std::vector<std::uint8_t> o = ReadAllFd(dupfd); ::close(dupfd);
+    return r + " n=" + std::to_string(o.size()) + " bytes=" + Hex(o) + " moved=" + ((rel == fd && open_after) ? "ok" : "bad:" + std::to_string(rel) + "/" + std::to_string(open_after));
+  }
+  static std::string decm(const std::vector<std::uint8_t>& in) {
+    int fd = MemFd(in); int dupfd = dup(fd);
+    auto h = std::make_unique<Holder<T>>();
+    int code, rel; bool open_after;
+    { nop::FdReader r1{fd}; nop::FdReader r2{std::move(r1)}; nop::FdReader r3; r3 = std::move(r2);
+      nop::Deserializer<nop::FdReader*> d{&r3}; code = Code(d.Read(&h->v));
+      rel = r3.Release(); }
+    open_after = fcntl(fd, F_GETFD) != -1;
+    if (open_after) ::close(fd);
+    off_t pos = lseek(dupfd, 0, SEEK_CUR); ::close(dupfd);
+    std::string mv = std::string(" moved=") + ((rel == fd && open_after) ? "ok" : "bad:" + std::to_string(rel) + "/" + std::to_string(open_after));
+    if (code) return "st=" + std::to_string(code) + mv;
+    std::string dump; Dump(dump, h->v);
+    return "st=0 val=" + dump + " consumed=" + std::to_string(static_cast<long long>(pos)) + mv;
   }
 };
 
@@ -785,6 +816,7 @@ std::string LibOps(const std::vector<Sx>& a) {
       if (kind == "uped2") return EncBufTwice<T>("uped", cap, h->v);
       if (kind == "cx") return CxOps<T, Cx>::enc(cap, h->v);
       if (kind == "fd") return FdOps<T, Fd>::enc(h->v);
+      if (kind == "mfd") return FdOps<T, Fd>::encm(h->v);
       return EncBuf<T>(kind, cap, limit, h->v);
     } else if (op == "decr") {   // decr T KIND LIMIT HEX
       const std::string& kind = a.at(2).a;
@@ -792,6 +824,7 @@ std::string LibOps(const std::vector<Sx>& a) {
       std::vector<std::uint8_t> bytes = UnHex(a.at(4).a);
       if (kind == "fd") return FdOps<T, Fd>::dec(bytes, limit, false);
       if (kind == "bfd") return FdOps<T, Fd>::dec(bytes, limit, true);
+      if (kind == "mfd") return FdOps<T, Fd>::decm(bytes);
       return DecBuf<T>(kind, bytes, limit);
     }
     return "HARNESS-ERROR unknown op " + op;
